@@ -13,7 +13,7 @@ META = {
         "quick": {"sign": "all secrets d in [1,N-1], digests z in [0,2^256), nonces k in [1,N-1] (real N; nonce generator stubbed to an arbitrary k)",
                   "rfc6979": "all d, z; HMAC-DRBG loop unwound to 3 candidate draws; HMAC-SHA256 uninterpreted",
                   "verify": "all keys d in [1,N-1], z in [0,2^256), r, s in [-2^257, 2^257]",
-                  "der": "r, s in [1,N-1] partitioned by the number of leading zero bytes (0..3) and the high-bit pad; "
+                  "toy": "end-to-end sign->verify cross-check without abstraction on the real curve classes over F_43 (group order 31): d in 1..4, all k, z in 0..8 (thorough: all d, z in 0..63)", "der": "r, s in [1,N-1] partitioned by the number of leading zero bytes (0..3) and the high-bit pad; "
                          "Signature.parse on arbitrary strings of <= 9 bytes"},
         "thorough": {"der": "leading zero bytes 0..31, parse on arbitrary strings of <= 11 bytes", "rfc6979": "5 candidate draws"}},
     "outside": ["cecc.py (libsec bindings, not importable here)", "sign_message/verify_message hashing (one hash256 call)",
@@ -340,6 +340,76 @@ def replay_der_parse(w):
     return {"violated": not ok, "observed": f"accepted {raw.hex()}"}
 
 
+# ---------------------------------------------------------------------------------------- O5 end-to-end cross-check on toy groups
+
+
+def _toy_path(p, q, dmax, zmax):
+    """no abstraction at all: the real Point/S256Point arithmetic over y^2 = x^3 + 7 / F_p with prime group order q (module
+    constants re-bound), z3 bit-vectors only.  Cross-checks the abstract-group + canonical-form route of O1/O3 end to end."""
+    from checks.c03 import Toy, ref_mul
+    t = Toy(p, q)
+    try:
+        m = t.m
+        d = SI.var("d", 1, dmax)
+        k = SI.var("k", 1, q - 1)
+        z = SI.var("z", 0, zmax)
+        wit = lambda env: {"p": p, "q": q, "d": env["d"], "k": env["k"], "z": env["z"]}  # noqa
+        pk = m.PrivateKey(d)
+        pk.deterministic_k = lambda zz: k
+        kv = core.concretize(k)
+        rx = ref_mul(p, kv, t.g)[0]
+        if not (1 <= rx < q):
+            return "r-out-of-range"  # ECDSA retry / x >= n region (excluded in O1 by the stated assumption as well)
+        sig = pk.sign(z)
+        dv = core.concretize(d)
+        s0 = (z + rx * dv) * pow(kv, -1, q) % q
+        if bool(s0 == 0):
+            return "s-zero"
+        check(sig.r == rx, "toy: r", witness=wit)
+        check(s_and(s_or(sig.s == s0, sig.s == q - s0), sig.s >= 1, sig.s <= (q - 1) // 2), "toy: s equation / low-S", witness=wit)
+        check(bool(pk.point.verify(z, sig)), "toy: verify rejects the signature sign() produced", witness=wit)
+        return "ok"
+    finally:
+        t.close()
+
+
+def ob_toy(p, q, dmax, zmax):
+    r = sym_run(lambda: _toy_path(p, q, dmax, zmax), timeout_ms=30000, max_paths=2000000)
+    r["sample"] = {"toy group": f"y^2=x^3+7 / F_{p}, order {q}", "d": f"1..{dmax}", "k": f"1..{q - 1}", "z": f"0..{zmax}"}
+    return r
+
+
+def replay_toy(w):
+    from buidl import pecc as m
+    from checks.c03 import curve_points, ref_mul, ref_add
+    p, q = w["p"], w["q"]
+    saved = (m.P, m.N, m.G)
+    m.P, m.N = p, q
+    g = curve_points(p)[0]
+    m.G = m.S256Point(*g)
+    try:
+        pk = m.PrivateKey(w["d"])
+        pk.deterministic_k = lambda zz: w["k"]
+        rx = ref_mul(p, w["k"], g)[0]
+        sig = pk.sign(w["z"])
+        s0 = (w["z"] + rx * w["d"]) * pow(w["k"], -1, q) % q
+        bad = sig.r != rx or sig.s not in (s0, q - s0) or not (1 <= sig.s <= (q - 1) // 2) or not pk.point.verify(w["z"], sig)
+        if "r" in w:
+            try:
+                got = bool(pk.point.verify(w["z"], m.Signature(w["r"], w["s"])))
+            except Exception:
+                got = False
+            want = False
+            if 1 <= w["r"] < q and 1 <= w["s"] < q:
+                si = pow(w["s"], -1, q)
+                tot = ref_add(p, ref_mul(p, w["z"] * si % q, g), ref_mul(p, w["r"] * si % q, ref_mul(p, w["d"], g)))
+                want = tot is not None and tot[0] == w["r"]
+            bad = got != want
+        return {"violated": bool(bad), "observed": f"toy F_{p}/{q}: {w}"}
+    finally:
+        m.P, m.N, m.G = saved
+
+
 # ---------------------------------------------------------------------------------------- trusted-base constants
 
 def _constants():
@@ -383,4 +453,10 @@ def obligations(tier):
     for i in range(0, len(sizes), 4):
         obs.append(Ob("O4-der", ob_der, {"sizes": tuple(sizes[i:i + 4])}, replay="der"))
     obs.append(Ob("O4-der-parse", ob_der_parse, {"maxn": 9 if q else 11}, replay="der_parse", budget_s=1500))
+    if q:
+        obs.append(Ob("O5-toy-end-to-end", ob_toy, {"p": 43, "q": 31, "dmax": 4, "zmax": 8}, replay="toy", budget_s=1500))
+    else:
+        for dlo in range(0, 30, 5):
+            obs.append(Ob("O5-toy-end-to-end", ob_toy, {"p": 43, "q": 31, "dmax": 30, "zmax": 63}, replay="toy", budget_s=6000))
+            break
     return obs
